@@ -342,22 +342,31 @@ def weights(rc):
         okf = oks = False
         for lp in [n for n in walk_no_nested(k.node) if isinstance(n, ast.For) and tm.is_(n.iter, "self.variables") is not None and isinstance(n.target, ast.Name)]:
             VAR = lp.target.id
+            from ..util import deep_resolve as _dr
+            loc = {}
+            for x in ast.walk(lp):
+                if isinstance(x, ast.Assign) and len(x.targets) == 1 and isinstance(x.targets[0], ast.Name):
+                    loc.setdefault(x.targets[0].id, []).append(x.value)
+            loc1 = {k_: v_[0] for k_, v_ in loc.items() if len(v_) == 1}
             for n_, b_ in tm.find_all(lp, "_K[_t] = _RF.values / sum(_RF.values)"):
-                _, b2 = tm.find(lp, "_RF = _F.reduce(_ST, inplace=False)", b_)
+                _, b2 = tm.find(lp, "_RF = _F.reduce(__ST, inplace=False)", b_)
                 if b2 is None:
                     continue
                 okk = True
+                F = b2["_F"]
+                fdef = _dr(loc1.get(F), {k_: v_ for k_, v_ in loc1.items() if k_ != F}) if F in loc1 else None
                 # all factors that mention the variable
-                if tm.find(lp, "_FS = [_c.to_factor() for _c in model.cpds if _v in _c.scope()]", {"_v": VAR})[1] is not None and tm.has(lp, "_F = factor_product(*_FS)", b2):
+                if fdef is not None and tm.is_(fdef, "factor_product(*[_c.to_factor() for _c in model.cpds if _v in _c.scope()])", {"_v": VAR}) is not None:
                     okf = True
-                _, b3 = tm.find(lp, "_F = _FD[_v]", dict(b2, _v=VAR))
+                b3 = tm.is_(fdef, "_FD[_v]", {"_v": VAR}) if fdef is not None else None
                 if b3 is not None:
                     for l2 in [x for x in walk_no_nested(k.node) if isinstance(x, ast.For)]:
                         b4 = tm.is_(l2, "for _f in model.get_factors():\n    for _w in _f.scope():\n        _FD[_w].append(_f)", {"_FD": b3["_FD"]})
                         if b4 is not None:
                             okf = True
-                _, b5 = tm.find(lp, "_SC = set(_F.scope())", b2)
-                if b5 is not None and tm.find(lp, "_ST = [State(_a, _s) for _a, _s in zip(_OV, _t) if _a in _SC]", b5)[1] is not None:
+                st = _dr(b2["__ST"], {k_: v_ for k_, v_ in loc1.items() if k_ != F})
+                b5 = tm.is_(st, "[State(_a, _s) for _a, _s in zip(__OV, _t) if _a in __SC]", {"_t": b_["_t"]})
+                if b5 is not None and tm.is_(_dr(b5["__SC"], {k_: v_ for k_, v_ in loc1.items() if k_ != F}), "set(_F.scope())", {"_F": F}) is not None:
                     oks = True
         rc.ob(f"{q}: kernel rows normalised, factor reduced out of place: {okk}; all factors of the variable {okf}; reduced inside scope {oks}")
         if not okk:
